@@ -581,6 +581,8 @@ impl Eng {
 
 struct Stats {
     m: BTreeMap<String, u64>,
+    /// oracle verdicts, emitted at the end smallest input first (so a replay file opens with a small witness)
+    verdicts: Vec<(&'static str, String, String)>,
 }
 impl Stats {
     fn inc(&mut self, k: &str) {
@@ -729,6 +731,12 @@ fn run_case(out: &mut Out, st: &mut Stats, stream: &str, eng: Eng, gd: &GenDict,
         }
         Err(_) => st.inc(&format!("{}.panic", stream)),
     }
+    if eng == Eng::Fuzzy && stream == "valid" && comp.symbols().iter().any(|s| match s {
+        Symbol::Syllable(s) => gd.dict.lookup_all_phrases(&[*s].as_slice(), LookupStrategy::Standard).is_empty(),
+        _ => false,
+    }) {
+        st.inc("valid.fuzzy_with_partial_syllable"); // a word exists only through the fuzzy (prefix) lookup
+    }
     if !comp.selections().is_empty() {
         st.inc("with_selection");
     }
@@ -767,12 +775,12 @@ fn run_case(out: &mut Out, st: &mut Stats, stream: &str, eng: Eng, gd: &GenDict,
     }
     st.inc("oracle_evaluated");
     if let Some(first) = v.c03.first() {
-        out.oracle_fail("C03", class, &format!("{} ({} failures) :: {}", first, v.c03.len(), describe(eng, gd, gc)));
+        st.verdicts.push(("C03", class.to_string(), format!("{} ({} failures) :: {}", first, v.c03.len(), describe(eng, gd, gc))));
     }
     if let Some(first) = v.c04.first() {
-        out.oracle_fail("C04", class, &format!("{} ({} failures) :: {}", first, v.c04.len(), describe(eng, gd, gc)));
+        st.verdicts.push(("C04", class.to_string(), format!("{} ({} failures) :: {}", first, v.c04.len(), describe(eng, gd, gc))));
         // C03 discharges these obligations of C04: report under C03 as well so that its check fails
-        out.oracle_fail("C03", class, &format!("[C04 half] {} :: {}", first, describe(eng, gd, gc)));
+        st.verdicts.push(("C03", class.to_string(), format!("[C04 half] {} :: {}", first, describe(eng, gd, gc))));
     }
 }
 
@@ -832,7 +840,7 @@ fn check_editor(ed: &Editor) -> Vec<String> {
     v
 }
 
-fn editor_stream(out: &mut Out, rng: &mut Rng, st: &mut Stats, n_hist: usize, max_keys: usize) {
+fn editor_stream(_out: &mut Out, rng: &mut Rng, st: &mut Stats, n_hist: usize, max_keys: usize) {
     let kb = Qwerty;
     for _ in 0..n_hist {
         let dense = rng.chance(1, 8);
@@ -922,9 +930,9 @@ fn editor_stream(out: &mut Out, rng: &mut Rng, st: &mut Stats, n_hist: usize, ma
                         if !hw {
                             st.inc("ed.states_noword");
                         } else if let Some(f) = fails.first() {
-                            out.oracle_fail("C03", "new", &format!("editor: {} ({} failures) :: engine={} dict=[{}] keys={}", f, fails.len(), eng.name(),
+                            st.verdicts.push(("C03", "new".to_string(), format!("editor: {} ({} failures) :: engine={} dict=[{}] keys={}", f, fails.len(), eng.name(),
                                 gd.dict.entries().map(|(k, p)| format!("{}={}:{}", k.iter().map(|s| s.to_string()).collect::<Vec<_>>().join("+"), p.as_str(), p.freq())).collect::<Vec<_>>().join(" "),
-                                hist.join(" ")));
+                                hist.join(" "))));
                             keys_done = n_keys;
                             break;
                         }
@@ -933,7 +941,7 @@ fn editor_stream(out: &mut Out, rng: &mut Rng, st: &mut Stats, n_hist: usize, ma
                         let file = LAST_PANIC_FILE.with(|m| m.borrow().clone());
                         let msg = LAST_PANIC.with(|m| m.borrow().clone());
                         if file.contains("conversion") {
-                            out.oracle_fail("C03", "new", &format!("editor: conversion panics ({} at {}) :: engine={} keys={}", msg, file, eng.name(), hist.join(" ")));
+                            st.verdicts.push(("C03", "new".to_string(), format!("editor: conversion panics ({} at {}) :: engine={} keys={}", msg, file, eng.name(), hist.join(" "))));
                         } else {
                             st.inc("ed.other_panic"); // not a conversion panic: belongs to C01
                         }
@@ -964,7 +972,7 @@ fn main() {
     let n_dicts: usize = if thorough { 80000 } else { 5000 };
     let comps_per_dict = 4;
     let max_len = if thorough { 24 } else { 12 };
-    let mut st = Stats { m: BTreeMap::new() };
+    let mut st = Stats { m: BTreeMap::new(), verdicts: vec![] };
     let engines = [Eng::Chewing, Eng::Simple, Eng::Fuzzy];
     let mut samples = 0;
     for di in 0..n_dicts {
@@ -1015,6 +1023,10 @@ fn main() {
         }
     }
     editor_stream(&mut out, &mut rng, &mut st, if thorough { 20000 } else { 1500 }, if thorough { 80 } else { 40 });
+    st.verdicts.sort_by_key(|(_, class, detail)| (class != "new", detail.len()));
+    for (prop, class, detail) in &st.verdicts {
+        out.oracle_fail(prop, class, detail);
+    }
     for (k, v) in &st.m {
         out.stat(k, v);
     }
